@@ -9,7 +9,7 @@
 From CB Require Import Spec Unstable.
 From Coq Require Import Permutation.
 From CBP Require Import Step RefDefs C02Lemmas Arith AbsLemmas AllOps FaultDefs FaultPrims FaultDropA FaultDropB FaultUser
-     Iters DrainP ExtendIo CmpHash Ctors PhysMoves MoreOps UnstableEq Access Views RefTruncate FillExtend FaultFrame SpecCorollaries.
+     Iters DrainP ExtendIo CmpHash Ctors PhysMoves MoreOps UnstableEq Access Views RefTruncate FillExtend FaultFrame SpecCorollaries ValueCorollaries FaultGeneric FaultHistory.
 
 
 Theorem C12_new :
@@ -61,3 +61,19 @@ Theorem C12_into_iter :
   forall script, refines_op (OIntoIter script).
 Proof. exact (fun script => exec_refines (OIntoIter script)). Qed.
 Print Assumptions C12_into_iter.
+
+Theorem C12_clone_shares_nothing :
+  forall s w v s' w',
+  WF s -> fault w = None -> allocated w (abs s) ->
+  exec OCloneKeepClone s w = (Ok v, s', w') ->
+  vals (abs s') = vals (abs s) /\ disjoint_ids (abs s') (abs s) /\ NoDup (ids (abs s')).
+Proof. exact (clone_disjoint). Qed.
+Print Assumptions C12_clone_shares_nothing.
+
+Theorem C12_to_vec_shares_nothing :
+  forall s w cs s' w',
+  WF s -> fault w = None -> allocated w (abs s) ->
+  exec OToVec s w = (Ok (OutList cs), s', w') ->
+  vals cs = vals (abs s) /\ disjoint_ids cs (abs s) /\ NoDup (ids cs) /\ abs s' = abs s.
+Proof. exact (to_vec_disjoint). Qed.
+Print Assumptions C12_to_vec_shares_nothing.
